@@ -61,7 +61,7 @@ def _inverse(case):
     from pytorch_wavelets import DWT1DInverse, DWTInverse
     cls = DWT1DInverse if case['dim'] == 1 else DWTInverse
     with dwtu.default_dtype(dwtu.tdt(case['dtype'])):
-        return cls(wave=c01.wave_arg(case, 'rec'), mode=case['mode'])
+        return cls(wave=c01.wave_arg(case, 'rec'), mode=case.get('mode_spelling', case['mode']))
 
 
 def run_case(case):
